@@ -308,7 +308,7 @@ func (g *gen) pushIntAny() bool {
 	return g.pushBig(g.r.BigBoundary())
 }
 
-var keyBytes = [][]byte{{}, {'a'}, {'b'}, {0}, {1}, make([]byte, 64), make([]byte, 65), {'a', 'b', 'c'}}
+var keyBytes = [][]byte{{}, {'a'}, {'b'}, {0}, {1}, make([]byte, 64), {'a', 'b', 'c'}, {'a'}, {'b'}, {0}, {1}, {}, {2}, make([]byte, 65)}
 
 func (g *gen) pushData(b []byte) bool {
 	switch {
@@ -450,6 +450,14 @@ func (g *gen) load(s source) bool {
 	default:
 		return g.slotOp(opcode.LDSFLD0, opcode.LDSFLD, s.idx)
 	}
+}
+
+// slotCount: mostly small, sometimes large enough for every short-form slot opcode.
+func (g *gen) slotCount() int {
+	if g.r.Chance(1, 5) {
+		return 5 + g.r.Intn(5)
+	}
+	return 1 + g.r.Intn(4)
 }
 
 func (g *gen) slotOp(short, long opcode.Opcode, i int) bool {
@@ -650,9 +658,11 @@ func (g *gen) actOnContainer() bool {
 		{opcode.KEYS, isMapK}, {opcode.REVERSEITEMS, func(k kind) bool { return arrOrStruct(k) || k == kBuf }},
 		{opcode.SIZE, indexable}, {opcode.CLEARITEMS, isCompound},
 	}[g.r.Intn(11)]
+	// sometimes consume the container that is already on top (possibly its only reference)
+	inPlace := g.depth() > 0 && c.want(g.kindAt(0)) && g.r.Chance(1, 3)
 	if c.op == opcode.UNPACK || c.op == opcode.VALUES {
 		// keep the result within the item limit most of the time
-		if !g.pushContainer(c.want) {
+		if !inPlace && !g.pushContainer(c.want) {
 			return false
 		}
 		if containerLen(g.top(0))*2+4 > g.free() && !g.r.Chance(1, 5) {
@@ -660,7 +670,7 @@ func (g *gen) actOnContainer() bool {
 		}
 		return g.ins(c.op)
 	}
-	if !g.pushContainer(c.want) {
+	if !inPlace && !g.pushContainer(c.want) {
 		return false
 	}
 	if c.op == opcode.POPITEM && containerLen(g.top(0)) == 0 && !g.r.Chance(1, 30) {
@@ -785,14 +795,14 @@ func (g *gen) actSlots() bool {
 		{arg, opcode.LDARG0, opcode.LDARG, opcode.STARG0, opcode.STARG},
 		{st, opcode.LDSFLD0, opcode.LDSFLD, opcode.STSFLD0, opcode.STSFLD}}
 	if *st == nil && g.loop == nil && g.r.Chance(1, 2) {
-		return g.ins(opcode.INITSSLOT, byte(1+g.r.Intn(4)))
+		return g.ins(opcode.INITSSLOT, byte(g.slotCount()))
 	}
 	if *loc == nil && *arg == nil && g.loop == nil && g.r.Chance(1, 2) {
-		a := g.r.Intn(3)
+		a := g.slotCount() - 1
 		if a > g.depth() {
 			a = g.depth()
 		}
-		l := g.r.Intn(4)
+		l := g.slotCount() - 1
 		if a == 0 && l == 0 {
 			l = 1
 		}
@@ -1112,11 +1122,11 @@ func (g *gen) actCall() bool {
 	}
 	// callee prologue
 	if g.r.Chance(3, 4) {
-		na := g.r.Intn(4)
+		na := g.slotCount() - 1
 		if na > g.depth() {
 			na = g.depth()
 		}
-		nl := g.r.Intn(3)
+		nl := g.slotCount() - 1
 		if na == 0 && nl == 0 {
 			nl = 1
 		}
@@ -1315,18 +1325,19 @@ var hostileData = []byte{byte(opcode.NOP), byte(opcode.NOP), byte(opcode.PUSH1),
 // an offset that is not an instruction boundary.
 func (g *gen) actHostile() bool {
 	g.hostile = false
-	g.didHost = true
 	off := 1 + g.r.Intn(5) // index inside the 8 data bytes
 	data := hostileData
-	switch g.r.Intn(8) {
+	k := g.r.Intn(8)
+	if k == 2 && !g.ins(opcode.PUSHT) {
+		return false
+	}
+	g.didHost = true
+	switch k {
 	case 0:
 		g.put(opcode.JMP, byte(2+1+off))
 	case 1:
 		g.put(opcode.JMPL, le32(5+1+off)...)
 	case 2:
-		if !g.ins(opcode.PUSHT) {
-			return false
-		}
 		g.put(opcode.JMPIF, byte(2+1+off))
 	case 3:
 		g.put(opcode.CALL, byte(2+1+off))
@@ -1476,10 +1487,10 @@ func genTyped(r *rng.R) (script []byte, flavor int, hostile bool) {
 	}
 	// prologue
 	if r.Chance(5, 6) {
-		g.ins(opcode.INITSSLOT, byte(1+r.Intn(4)))
+		g.ins(opcode.INITSSLOT, byte(g.slotCount()))
 	}
 	if r.Chance(2, 3) {
-		g.ins(opcode.INITSLOT, byte(1+r.Intn(3)), 0)
+		g.ins(opcode.INITSLOT, byte(g.slotCount()), 0)
 	}
 	g.body = g.n
 	for i := 0; i < actions && !g.stopped && g.room(); i++ {
@@ -1504,7 +1515,11 @@ func genTyped(r *rng.R) (script []byte, flavor int, hostile bool) {
 			break
 		}
 	}
-	// trampolines may point at the frontier: keep it inside the script.
+	// trampolines may point at the frontier: keep it inside the script; the ones that
+	// were never reached lead to the final RET.
+	for ip := range g.tramp {
+		binary.LittleEndian.PutUint32(g.buf[ip+1:], uint32(int32(g.n-ip)))
+	}
 	g.buf[g.n] = byte(opcode.RET)
 	g.n++
 	return append([]byte(nil), g.buf[:g.n]...), g.flavor, g.didHost
